@@ -287,6 +287,10 @@ type sut struct {
 	lvl    int
 	enums  int
 	zero   bool // zero-value list: script planted after the first write
+	// quiet > 0: no observing call is made for that many operations (only the
+	// operations' own results are compared); then everything is verified.
+	quiet     int
+	quietCase bool
 }
 
 func (s *sut) sameKey(a, b int) bool { return s.m.ord.cls(a) == s.m.ord.cls(b) }
@@ -340,6 +344,20 @@ func (s *sut) afterWrite() {
 // cheap observers after every operation
 func (s *sut) observe(after string) bool {
 	c := s.c
+	if s.quiet > 0 {
+		s.quiet--
+		c.Add("observations_deferred", 1)
+		if s.quiet > 0 {
+			return true
+		}
+		c.Add("quiet_windows_closed", 1)
+		if !s.enumerate() {
+			return false
+		}
+	} else if s.quietCase && c.Rng.Chance(1, 12) {
+		s.quiet = c.Rng.Range(2, 8)
+		return true
+	}
 	var n int
 	var hk, hv int
 	var hok bool
@@ -377,6 +395,9 @@ func (s *sut) collect(name string, run func(f func(k, v int) bool), stopAfter in
 // enumerate compares every whole-map route with the model.
 func (s *sut) enumerate() bool {
 	c := s.c
+	if s.quiet > 0 {
+		return true
+	}
 	s.enums++
 	want := s.m.b
 	c.Add("full_enumerations", 1)
@@ -441,6 +462,9 @@ func (s *sut) enumerate() bool {
 func (s *sut) rangeQueries(n int) bool {
 	c := s.c
 	rng := c.Rng
+	if s.quiet > 0 {
+		return true
+	}
 	for q := 0; q < n; q++ {
 		st := rng.Range(-2, s.maxKey+2)
 		want := s.m.from(st)
@@ -565,6 +589,9 @@ func (s *sut) opRemove(k int) bool {
 
 func (s *sut) opGet(k int) bool {
 	c := s.c
+	if s.quiet > 0 {
+		return true
+	}
 	i, present := s.m.find(k)
 	var v, nk, nv int
 	var ok, nok bool
@@ -772,7 +799,7 @@ func seqCase(c *ev.Case) {
 		return
 	}
 	sc := &script{rng: rng.Fork(), mode: rng.Intn(6)}
-	s := &sut{c: c, l: l, m: &model{ord: ord}, sc: sc, zero: zero}
+	s := &sut{c: c, l: l, m: &model{ord: ord}, sc: sc, zero: zero, quietCase: rng.Chance(1, 3)}
 	if !zero {
 		s.plant = plant(l.Raw(), sc)
 	}
@@ -788,7 +815,8 @@ func seqCase(c *ev.Case) {
 			return
 		}
 	}
-	if !s.enumerate() || !s.rangeQueries(3) {
+	s.quiet = 0
+	if !s.observe("end of sequence") || !s.enumerate() || !s.rangeQueries(3) {
 		return
 	}
 	// drain in a random order: exercises multi-level unlink and level shrink
@@ -940,5 +968,6 @@ func main() {
 	r.Require("range_start_absent", 5000)
 	r.Require("range_start_present", 5000)
 	r.Require("zero_value_scripts", 100)
+	r.Require("quiet_windows_closed", 3000)
 	r.Finish()
 }
